@@ -1080,3 +1080,27 @@ pub fn hint_pick(len: usize, salt: usize) -> (usize, Option<usize>) {
 pub fn path_dg(n: usize) -> Dg {
     Dg { order: n.max(1), arcs: (1..n.max(1)).map(|v| (v - 1, v)).collect() }
 }
+
+/// A source iterator whose clones share one cursor (a draining iterator over a
+/// queue behind a reference): legal for `T: Iterator + Clone`, and each source
+/// is still yielded exactly once overall.
+#[derive(Clone)]
+pub struct SharedCursor<'a> {
+    queue: &'a std::cell::RefCell<std::collections::VecDeque<usize>>,
+}
+
+impl Iterator for SharedCursor<'_> {
+    type Item = usize;
+
+    fn next(&mut self) -> Option<usize> {
+        self.queue.borrow_mut().pop_front()
+    }
+}
+
+pub fn shared_queue(items: &[usize]) -> std::cell::RefCell<std::collections::VecDeque<usize>> {
+    std::cell::RefCell::new(items.iter().copied().collect())
+}
+
+pub fn shared_cursor(queue: &std::cell::RefCell<std::collections::VecDeque<usize>>) -> SharedCursor<'_> {
+    SharedCursor { queue }
+}
